@@ -8,7 +8,7 @@
    keeper.go ActExternalRewardsLockers / ActExternalRewardsVaults (122-223); abci.go BeginBlocker.
    Definitions only.  Times are whole seconds.  The farmed values (lpSupplies), the child-pool
    contributions, the amount TransferFundsForSwapFeeDistribution hands over, and the locker / vault
-   populations enter as recorded environment values.  Not modelled: lend and stable-mint external
+   populations enter as recorded environment values.  DistributeExtRewardLend (230-314) with AddLendExternalRewards.  Not modelled: stable-mint external
    programs, ESM / circuit-breaker early returns of the external distributions. *)
 From Comdex Require Import Lib.Base Lib.DecArith Lib.F64.
 
@@ -259,6 +259,59 @@ Definition kf_C19_3 (now : Z) (e : xenv) (x : ext) : bool :=
   | _ => false
   end.
 
+(* ---------------- lend external reward programs (kind 2): DistributeExtRewardLend ---------------- *)
+(* environment of one program: le_ok = the asset statistics of (pool, asset) were found (otherwise the
+   whole function returns); le_new = (lend owner, min(farmed master-pool value, borrowed value)) of the
+   borrow positions it walks, as Decs; le_price = (Twa, Decimals) of the reward asset when the asset
+   and its price are found *)
+Record lenv := mkLenv { le_ok : bool; le_new : list (Z * Z); le_price : option (Z * Z) }.
+
+(* the loop over ALL borrowers collected so far (the slices are declared outside the loop over the
+   programs and never reset): finalDailyRewardsPerUser = amount_i.Mul(totalAPR), truncated *)
+Fixpoint lend_loop (apr : Z) (arr : list (Z * Z)) (bal tracker : Z) : Z * Z * pays :=
+  match arr with
+  | [] => (bal, tracker, [])
+  | (a, amt) :: rest =>
+      let f := dtrunc_int (dmul amt apr) in
+      if 0 <? f then
+        let '(bal1, got) := if f <=? bal then (bal - f, f) else (bal, 0) in
+        let '(b, t, ps) := lend_loop apr rest bal1 (tracker + f) in (b, t, (a, got) :: ps)
+      else lend_loop apr rest bal tracker
+  end.
+
+(* result of one program: None = the function returns (no further program is processed) *)
+Definition lend_tick (now : Z) (e : lenv) (arr : list (Z * Z)) (tot bal : Z) (x : ext)
+  : outcome (option (ext * Z * pays * list (Z * Z) * Z)) :=
+  if negb (x_active x) then Ok (Some (x, bal, [], arr, tot))
+  else if negb (x_next x <? now) then Ok (Some (x, bal, [], arr, tot))
+  else if x_count x <? x_days x then
+    if negb (le_ok e) then Ok None
+    else
+      let arr' := arr ++ le_new e in
+      let tot' := tot + zsum (map (fun p => dtrunc_int (snd p)) (le_new e)) in
+      match le_price e with
+      | None => Ok (Some (x, bal, [], arr', tot'))
+      | Some (twa, decimals) =>
+          if decimals =? 0 then Panic else
+          let value := dquo (dmul (dec_of_int (x_avail x)) (dec_of_int twa)) (dec_of_int decimals) in
+          if tot' <=? 0 then Ok (Some (x, bal, [], arr', tot'))
+          else
+            let daily := dquo value (dec_of_int (x_days x - x_count x)) in
+            let apr := dquo daily (dec_of_int tot') in
+            let '(bal', tracker, paid) := lend_loop apr arr' bal 0 in
+            Ok (Some (mkExt (x_kind x) (x_denom x) (x_avail x - tracker) true (x_days x) (x_count x + 1) (now + DAY) (x_minlock x),
+                      bal', paid, arr', tot'))
+      end
+  else Ok (Some (mkExt (x_kind x) (x_denom x) (x_avail x) false (x_days x) (x_count x) (x_next x) (x_minlock x), bal, [], arr, tot)).
+
+(* known-finding class C19-F4: a lend program books more than it has left (the daily reward is computed
+   as a VALUE - amount times oracle price - and paid out as an AMOUNT of the reward denom) *)
+Definition kf_C19_4 (now : Z) (e : lenv) (arr : list (Z * Z)) (tot : Z) (x : ext) : bool :=
+  match lend_tick now e arr tot 0 x with
+  | Ok (Some (x', _, _, _, _)) => x_avail x' <? 0
+  | _ => false
+  end.
+
 (* a sufficient condition for a program step to stay out of class C19-F3: non-negative balances
    that add up to at most the recorded total (what the locker / vault books guarantee), and
    4 * owners * available <= 10^18 *)
@@ -275,7 +328,8 @@ Record rstate := mkR { r_bal : bank; r_gauges : list gauge; r_epochs : list epoc
 
 (* environment of one BeginBlocker: per gauge (positional) the farming data and the swap-fee
    transfer result, per program (positional) its population *)
-Record benv := mkBenv { be_farm : list farm_env; be_recv : list (outcome Z); be_ext : list xenv }.
+Record benv := mkBenv4 { be_farm : list farm_env; be_recv : list (outcome Z); be_ext : list xenv; be_lend : list lenv }.
+Definition mkBenv (f : list farm_env) (r : list (outcome Z)) (x : list xenv) : benv := mkBenv4 f r x [].
 
 Definition dpays := list (Z * Z * Z).             (* (denom, receiver, amount) *)
 Definition tag (d : Z) (l : pays) : dpays := map (fun p => (d, fst p, snd p)) l.
@@ -283,6 +337,7 @@ Definition tag (d : Z) (l : pays) : dpays := map (fun p => (d, fst p, snd p)) l.
 Definition hd_farm (l : list farm_env) : farm_env := match l with e :: _ => e | [] => FarmErr end.
 Definition hd_recv (l : list (outcome Z)) : outcome Z := match l with e :: _ => e | [] => Err 1 end.
 Definition hd_xenv (l : list xenv) : xenv := match l with e :: _ => e | [] => mkXenv 0 [] end.
+Definition hd_lenv (l : list lenv) : lenv := match l with e :: _ => e | [] => mkLenv false [] None end.
 
 (* InitateGaugesForDuration: the gauges of one duration in id order *)
 Fixpoint run_gauges (now dur : Z) (gs : list gauge) (fe : list farm_env) (rv : list (outcome Z)) (b : bank)
@@ -342,7 +397,29 @@ Fixpoint run_exts (kind now : Z) (xs : list ext) (xe : list xenv) (b : bank) : o
            end
   end.
 
-(* rewards.BeginBlocker (lend / stable-mint programs absent) *)
+(* DistributeExtRewardLend: the programs of kind 2 in id order, the borrower slices carried along *)
+Fixpoint run_lends (now : Z) (xs : list ext) (le : list lenv) (arr : list (Z * Z)) (tot : Z) (b : bank)
+  : outcome (list ext * bank * dpays) :=
+  match xs with
+  | [] => Ok ([], b, [])
+  | x :: rest =>
+      if x_kind x =? 2 then
+        match lend_tick now (hd_lenv le) arr tot (b (x_denom x)) x with
+        | Panic => Panic | Err c => Err c
+        | Ok None => Ok (xs, b, [])
+        | Ok (Some (x', bal', paid, arr', tot')) =>
+            match run_lends now rest (tl le) arr' tot' (bset b (x_denom x) bal') with
+            | Ok (xs', b', ps) => Ok (x' :: xs', b', tag (x_denom x) paid ++ ps)
+            | Err c => Err c | Panic => Panic
+            end
+        end
+      else match run_lends now rest (tl le) arr tot b with
+           | Ok (xs', b', ps) => Ok (x :: xs', b', ps)
+           | Err c => Err c | Panic => Panic
+           end
+  end.
+
+(* rewards.BeginBlocker (stable-mint programs absent) *)
 Definition begin_block (now : Z) (e : benv) (s : rstate) : outcome (rstate * dpays) :=
   match run_epochs now (r_epochs s) (r_gauges s) (be_farm e) (be_recv e) (r_bal s) with
   | Panic => Panic | Err c => Err c
@@ -352,7 +429,11 @@ Definition begin_block (now : Z) (e : benv) (s : rstate) : outcome (rstate * dpa
     | Ok (xs1, b2, p2) =>
       match run_exts 1 now xs1 (be_ext e) b2 with
       | Panic => Panic | Err c => Err c
-      | Ok (xs2, b3, p3) => Ok (mkR b3 gs es xs2, p1 ++ p2 ++ p3)
+      | Ok (xs2, b3, p3) =>
+        match run_lends now xs2 (be_lend e) [] 0 b3 with
+        | Panic => Panic | Err c => Err c
+        | Ok (xs3, b4, p4) => Ok (mkR b4 gs es xs3, p1 ++ p2 ++ p3 ++ p4)
+        end
       end
     end
   end.
@@ -362,11 +443,13 @@ Inductive gop :=
     (* MsgCreateGauge; funds = creator's balance; meta_ok = app, pool, oracle price, child pools are fine *)
 | CreateSwap (denom now dur : Z)                      (* liquidity CreatePool -> CreateNewGauge(forSwapFee) *)
 | ExtCreate (kind denom total days minlock now funds : Z) (ok : bool)
-    (* ActivateExternalRewardsLockers / Vault; ok = the locker asset mapping / vault mapping checks pass *)
+    (* ActivateExternalRewardsLockers / Vault / Lend (kind 0 / 1 / 2); ok = the lookups of the handler succeed *)
 | Begin (now : Z) (e : benv)
 | Donate (denom amt : Z).                              (* any other credit to the module account *)
 
 Definition MIN_EPOCH_DUR : Z := 43200.
+(* AddLendExternalRewards: StartingTime = now + 84600 (sic) *)
+Definition LEND_FIRST : Z := 84600.
 
 Fixpoint has_epoch (dur : Z) (es : list epoch) : bool :=
   match es with [] => false | e :: r => (e_dur e =? dur) || has_epoch dur r end.
@@ -392,9 +475,9 @@ Definition rstep (s : rstate) (o : gop) : outcome (rstate * dpays) :=
       Ok (mkR (r_bal s) (r_gauges s ++ [mkGauge 0 0 0 1 true now dur true d])
               (ensure_epoch now dur (r_epochs s)) (r_exts s), [])
   | ExtCreate kind d total days minlock now funds ok =>
-      if (total <=? 0) || (days <=? 0) || (minlock <=? 0) || negb ok || (funds <? total) then Err 1
+      if (total <=? 0) || (days <=? 0) || ((kind <? 2) && (minlock <=? 0)) || negb ok || (funds <? total) then Err 1
       else Ok (mkR (bset (r_bal s) d (r_bal s d + total)) (r_gauges s) (r_epochs s)
-                   (r_exts s ++ [mkExt kind d total true days 0 (now + DAY) minlock]), [])
+                   (r_exts s ++ [mkExt kind d total true days 0 (now + (if kind =? 2 then LEND_FIRST else DAY)) minlock]), [])
   | Begin now e => begin_block now e s
   | Donate d a => if a <? 0 then Err 1 else Ok (mkR (bset (r_bal s) d (r_bal s d + a)) (r_gauges s) (r_epochs s) (r_exts s), [])
   end.
@@ -447,6 +530,18 @@ Fixpoint kf3_pass (kind now : Z) (xs : list ext) (xe : list xenv) : bool :=
   end.
 Definition kf2_begin (now : Z) (e : benv) (s : rstate) : bool :=
   kf2_epochs now (r_epochs s) (r_gauges s) (be_farm e) (be_recv e) (r_bal s).
+Fixpoint kf4_pass (now : Z) (xs : list ext) (le : list lenv) (arr : list (Z * Z)) (tot : Z) : bool :=
+  match xs with
+  | [] => false
+  | x :: rest =>
+      if x_kind x =? 2 then
+        kf_C19_4 now (hd_lenv le) arr tot x ||
+        match lend_tick now (hd_lenv le) arr tot 0 x with
+        | Ok (Some (_, _, _, arr', tot')) => kf4_pass now rest (tl le) arr' tot'
+        | _ => false
+        end
+      else kf4_pass now rest (tl le) arr tot
+  end.
 Definition kf3_begin (now : Z) (e : benv) (s : rstate) : bool :=
   match run_epochs now (r_epochs s) (r_gauges s) (be_farm e) (be_recv e) (r_bal s) with
   | Ok (_, _, b1, _) =>
@@ -457,9 +552,22 @@ Definition kf3_begin (now : Z) (e : benv) (s : rstate) : bool :=
       end
   | _ => false
   end.
+Definition kf4_begin (now : Z) (e : benv) (s : rstate) : bool :=
+  match run_epochs now (r_epochs s) (r_gauges s) (be_farm e) (be_recv e) (r_bal s) with
+  | Ok (_, _, b1, _) =>
+      match run_exts 0 now (r_exts s) (be_ext e) b1 with
+      | Ok (xs1, b2, _) =>
+          match run_exts 1 now xs1 (be_ext e) b2 with
+          | Ok (xs2, _, _) => kf4_pass now xs2 (be_lend e) [] 0
+          | _ => false
+          end
+      | _ => false
+      end
+  | _ => false
+  end.
 Definition kf_step (s : rstate) (o : gop) : bool :=
   match o with
-  | Begin now e => kf2_begin now e s || kf3_begin now e s
+  | Begin now e => kf2_begin now e s || kf3_begin now e s || kf4_begin now e s
   | _ => false
   end.
 (* no step of the history meets a class *)
